@@ -21,7 +21,8 @@ RULE = ("random RDF 1.1 graphs and datasets (default graph, IRI and blank-node g
         "grouped parser's frames). Oracle: field-by-field equality (never "
         "rdflib ==) of the SETS of triples / quads incl. graph names. A second pass runs with rdflib.NORMALIZE_LITERALS = "
         "False. Non-trivial: dataset with >= 2 graphs or a blank-node graph name, or a stream with >= 1 eviction; distinct by "
-        "hash of (config, statements). Every shard first runs a frame-length sweep: one-statement graphs whose literal is sized so that "
+        "hash of (config, statements). One case in six writes 2-5 Graphs/Datasets through ONE stream (grouped_stream_to_frames/_to_file, "
+        "60 % with their repeating namespace bindings declared) and reads the union back. Every shard first runs a frame-length sweep: one-statement graphs whose literal is sized so that "
         "the delimited frame is exactly 126..130, 16382..16513 and 2097150..2113537 (sampled) bytes long (every shape of the "
         "length prefix), written by Graph.serialize and flat_stream_to_file, read by every reader and an independent framing reader.")
 ASSUMPTIONS = [
@@ -312,12 +313,49 @@ def boundary_frame_lengths(ctx):
             ctx.case(("boundary", L, entry), True, sample={"kind": "boundary-frame-length", "frame_length": L, "entry": entry})
 
 
+def multi_store_case(ctx, rng):
+    """Several Graphs / Datasets written through ONE stream (grouped_stream_to_frames / _to_file), half of the cases with the
+    stores' (repeating) namespace bindings declared: the union read back must be the union written."""
+    cfg, groups, nss = workloads.multi_sink_case(rng, with_ns=rng.random() < .6)
+    cfg["integration"] = "rdflib"
+    try:
+        data = pj.serialize_groups(cfg, groups, nss)
+    except Exception as e:  # noqa: BLE001
+        ctx.observe(f"multi-store-serializer-raised:{type(e).__name__}")
+        ctx.case(("multi", sorted(cfg.items()), groups, nss), False)
+        return
+    ctx.observe("multi-store-roundtrips")
+    ctx.observe("roundtrips")
+    want = {T.norm_stmt(s) for g in groups for s in g}
+    w = None
+    for reader in ("graph.parse", "flat", "grouped", "to_graph", "flat@pipe"):
+        try:
+            got = {T.norm_stmt(s) for s in read_back(data, cfg["physical"], reader)}
+        except Exception as e:  # noqa: BLE001
+            w = {"clause": "parser-raised", "reader": reader, "summary": f"{reader}: {type(e).__name__}: {e}"}
+            break
+        if got != want:
+            w = {"clause": "data-differs", "reader": reader,
+                 "summary": f"{reader}: {len(got)} statements read, {len(want)} written; extra={sorted(got - want, key=repr)[:2]} "
+                            f"missing={sorted(want - got, key=repr)[:2]}"}
+            break
+    if w is not None:
+        w.update({"cfg": cfg, "groups": T.to_json(groups), "nss": nss, "bytes": data.hex(), "kind": "multi-store",
+                  "summary": f"{len(groups)} stores through one stream (declarations {'on' if cfg['ns'] else 'off'}): " + w["summary"]})
+        ctx.violation(w)
+    ctx.case(("multi", sorted(cfg.items()), groups, nss), len(groups) >= 2,
+             sample={"kind": "multi-store", "cfg": cfg, "stores": len(groups), "bindings": [len(n) for n in nss]})
+
+
 def run_shard(ctx):
     boundary_frame_lengths(ctx)
     i = 0
     while not ctx.out_of_time():
         rng = ctx.rng(i)
         i += 1
+        if i % 6 == 0:
+            multi_store_case(ctx, rng)
+            continue
         cfg, stmts = make_case(rng, 40 if ctx.tier == "quick" else rng.choice([40, 200]))
         normalize = rng.random() < .7
         other = _OTHER[0]
@@ -367,6 +405,16 @@ def run_shard(ctx):
 def replay(w: dict):
     cfg = w["cfg"]
     cfg["preset"] = tuple(cfg["preset"])
+    if w.get("kind") == "multi-store":
+        groups = [list(T.from_json(g)) for g in w["groups"]]
+        nss = [[tuple(b) for b in n] for n in w["nss"]]
+        data = pj.serialize_groups(cfg, groups, nss)
+        want = {T.norm_stmt(s) for g in groups for s in g}
+        try:
+            got = {T.norm_stmt(s) for s in read_back(data, cfg["physical"], w.get("reader", "flat"))}
+        except Exception as e:  # noqa: BLE001
+            return {"clause": "parser-raised", "summary": f"{type(e).__name__}: {e}"}
+        return None if got == want else {"clause": "data-differs", "summary": f"{len(got)} read, {len(want)} written"}
     r = roundtrip(cfg, list(T.from_json(w["stmts"])), w.get("normalize", True),
                   bytes.fromhex(w["other_bytes"]) if w.get("other_bytes") else None)[0]
     return None if r and r["clause"] == "refused-undersized" else r
